@@ -14,9 +14,11 @@ Print Assumptions C26_order.
 (* one iteration: the CPU acts first, then video, memory (DMA then clock), audio and timer advance exactly once each *)
 Theorem C26_cycle : forall cs, sys_cycle cs = cycle_explicit cs.
 Proof. exact sys_cycle_explicit. Qed.
+Print Assumptions C26_cycle.
 Theorem C26_memory_step : forall s,
   sys_mapper_end s = do s1 <- sys_mapper_step MTickDMA s; Ok (set_cart (cart_tick (s_cart s1)) s1).
 Proof. exact mapper_end_explicit. Qed.
+Print Assumptions C26_memory_step.
 
 (* a frame is exactly 17,556 iterations *)
 Theorem C26_frame : forall cs, sys_run_frame cs = N.iter 17556 (fun r => bind r sys_cycle) (Ok cs).
@@ -28,8 +30,10 @@ Theorem C26_timer_irq : forall c s tirq,
   frame_step_run FTimer (c, s, tirq) = Ok (c, set_timer (fst (timer_tick (s_timer s))) s, snd (timer_tick (s_timer s))) /\
   (forall b, frame_step_run FTimerIrq (c, s, b) = Ok (c, (if b then set_ints (ints_request (s_ints s) 4) s else s), b)).
 Proof. exact timer_irq. Qed.
+Print Assumptions C26_timer_irq.
 Theorem C26_timer_irq_bit : forall i, N.testbit (ifl (ints_request i 4)) 2 = true.
 Proof. exact request_timer_sets_bit2. Qed.
+Print Assumptions C26_timer_irq_bit.
 
 (* Run stops: once the context is cancelled (first observed at the c-th check) no further frame starts, i.e. at most the
    frame in progress completes; when the display asks to close at the end of frame c, Run returns after exactly c
@@ -38,7 +42,19 @@ Theorem C26_stop_cancel : forall fuel video c cancelled,
   first_true c cancelled -> (c <= fuel)%nat ->
   run fuel false cancelled (fun _ => false) = mkLoop c 1 /\ cleanups (run fuel video cancelled (fun _ => false)) = 1%nat.
 Proof. exact run_stops_on_cancel. Qed.
+Print Assumptions C26_stop_cancel.
 Theorem C26_stop_close : forall fuel c closes,
   first_true c closes -> (0 < c)%nat -> (c <= fuel)%nat -> run fuel true (fun _ => false) closes = mkLoop c 1.
 Proof. exact run_stops_on_close. Qed.
+Print Assumptions C26_stop_close.
 Print Assumptions C26_stop_cancel.
+
+(* non-vacuity: a whole frame of a concrete machine runs, and stop conditions with a first observation exist *)
+Example C26_example :
+  let img := mkImage 32768 (fun a => if a =? 256 then 24 else if a =? 257 then 254 else 0) in
+  (exists cs0, sys_new img true false = Ok cs0 /\ is_ok (sys_run_frame cs0) = true) /\
+  first_true 3 (fun k => Nat.leb 3 k) /\ run 10 true (fun _ => false) (fun k => Nat.leb 3 k) = mkLoop 3 1.
+Proof.
+  split; [eexists; split; [vm_compute; reflexivity|vm_compute; reflexivity]|].
+  split; [split; [reflexivity|intros k Hk; apply PeanoNat.Nat.leb_gt; exact Hk]|vm_compute; reflexivity].
+Qed.
